@@ -791,11 +791,19 @@ def check_C18(ctx, tier, seed):
     return vd.finish()
 
 
+import threading
+_MIRI_WARM = {}
+_MIRI_LOCK = threading.Lock()
+
+
 def miri_batches(ctx, vd, key, scenario, count, procs, extra=()):
     """Runs `count` small histories of `scenario` under Miri, split over `procs` interpreter processes."""
     per = max(1, count // procs)
-    # warm-up (builds the Miri sysroot / crate once, serially)
-    c0, o0, e0 = miri_run(ctx, key, ["batch", scenario, "--seed", vd.seed, "--start", 0, "--count", 0, "--threads", 1])
+    # warm-up (builds the Miri sysroot / crate once per configuration, serially)
+    with _MIRI_LOCK:
+        lock = _MIRI_WARM.setdefault(key, threading.Lock())
+    with lock:
+        c0, o0, e0 = miri_run(ctx, key, ["batch", scenario, "--seed", vd.seed, "--start", 0, "--count", 0, "--threads", 1])
     if c0 != 0:
         sys.stderr.write(e0[-3000:])
         raise HarnessError("Miri warm-up failed for %s" % key)
@@ -855,14 +863,18 @@ def check_C17(ctx, tier, seed):
     # Miri: a deterministic interpreter that reports UB; under feature `unsafe` every invariant!() is an
     # unreachable_unchecked, so a false invariant is reported as "entering unreachable code"
     miri_cfgs = ["miri_sse2", "miri_sse41", "miri_avx2", "miri_unsafe_sse2"] if quick else ["miri_sse2", "miri_sse41", "miri_avx2", "miri_unsafe_sse2", "miri_unsafe_sse41", "miri_unsafe_avx2"]
-    per = 12 if quick else 64
+    pairs = []
     for cfg in miri_cfgs:
         if quick:
             scs = ["c17api", "c17reader"] if cfg == "miri_unsafe_sse2" else ["c17api"]
         else:
             scs = ["c17api", "c17reader", "c03", "c12"]
-        for sc in scs:
-            miri_batches(ctx, vd, cfg, sc, per * NCPU // 2, NCPU // 2)
+        pairs += [(cfg, sc) for sc in scs]
+    # all (configuration, scenario) pairs run concurrently, 3 interpreter processes each in the quick tier
+    procs = 3 if quick else 4
+    per = 32 if quick else 128
+    with ThreadPoolExecutor(max_workers=len(pairs) if quick else 4) as ex:
+        list(ex.map(lambda cs: miri_batches(ctx, vd, cs[0], cs[1], per * procs, procs), pairs))
     if not quick:
         miri_batches(ctx, vd, "miri_unsafe_serde", "c16", 800, 8)
         miri_batches(ctx, vd, "miri_unsafe_serde", "c16mock", 800, 8)
